@@ -262,3 +262,101 @@ func verifCanary(label string, cond bool) {}
 //@   ensures [C33:filter] result == (dirOK(desc.BrowseDirection, ref.IsForward) &&
 //@           typeOK(srv, desc.ReferenceTypeID, ref.ReferenceTypeID, desc.IncludeSubtypes) &&
 //@           classOK(desc.NodeClassMask, ref.NodeClass))
+
+// ---------------------------------------------------------------------------
+// C29: no request can crash or hang the server. Safety sweep (every nil/bounds/type-assertion/nil-map
+// obligation, termination of every loop) over the service layer, for any decoded request.
+// "Decoded" = what ua.Decode produces: pointer fields and pointer elements are allocated (assumed at
+// the boundary, [arg] preconditions); lengths, ids, node ids and values are arbitrary.
+// ---------------------------------------------------------------------------
+
+// the server as the services see it: configuration present, every registered namespace is a real one
+//@ pred srvOK(s *Server) := s != nil && s.cfg != nil && alive(s.namespaces) &&
+//@     (forall i int :: { at(s.namespaces, i) } off(s.namespaces) <= i && i < off(s.namespaces) + len(s.namespaces) ==> at(s.namespaces, i) != nil)
+
+// A namespace implementation (interface; NodeNameSpace's methods are verified under C31/C33, other
+// implementations are assumed to honour the same contract): no effect on the server object or on the
+// request, results are allocated.
+//@ func NameSpace.Attribute
+//@   props C29
+//@   assumed
+//@   params ns id attr
+//@   assigns allbut Server serverConfig AttributeService ua.ReadRequest ua.ReadValueID ua.RequestHeader []*ua.ReadValueID []*ua.DataValue []NameSpace
+//@ func NameSpace.SetAttribute
+//@   props C29
+//@   assumed
+//@   params ns id attr val
+//@   assigns allbut Server serverConfig AttributeService ua.WriteRequest ua.WriteValue ua.RequestHeader []*ua.WriteValue []ua.StatusCode []NameSpace
+//@ func NameSpace.Browse
+//@   props C29
+//@   assumed
+//@   params ns req
+//@   assigns allbut Server serverConfig ViewService ua.BrowseRequest ua.BrowseDescription ua.RequestHeader ua.BrowseResponse []*ua.BrowseDescription []*ua.BrowseResult []NameSpace
+
+//@ func (*Server).Namespace
+//@   props C29
+//@   requires srvOK(s) && id >= 0
+//@   assigns held(&s.mu), released(&s.mu)
+//@   ensures [C29:found] err == nil ==> id < len(s.namespaces) && result0 == s.namespaces[id] && result0 != nil
+//@   ensures [C29:missing] err != nil ==> result0 == nil
+
+//@ func (*AttributeService).Read
+//@   props C29
+//@   requires s != nil && srvOK(s.srv)
+//@   requires [arg] typeis(r, *ua.ReadRequest) ==> dyn(r, *ua.ReadRequest) != nil && dyn(r, *ua.ReadRequest).RequestHeader != nil &&
+//@            (forall k int :: { at(dyn(r, *ua.ReadRequest).NodesToRead, k) } off(dyn(r, *ua.ReadRequest).NodesToRead) <= k && k < off(dyn(r, *ua.ReadRequest).NodesToRead) + len(dyn(r, *ua.ReadRequest).NodesToRead) ==>
+//@                at(dyn(r, *ua.ReadRequest).NodesToRead, k) != nil && at(dyn(r, *ua.ReadRequest).NodesToRead, k).NodeID != nil)
+//@   assigns *
+//@   ensures [C29:typed] err == nil ==> typeis(r, *ua.ReadRequest) && typeis(result0, *ua.ReadResponse)
+//@   ensures [C29:one-result-per-node] err == nil ==> len(dyn(result0, *ua.ReadResponse).Results) == len(dyn(r, *ua.ReadRequest).NodesToRead)
+//@   loop 0 invariant -1 <= rangeindex && rangeindex < len(req.NodesToRead) && len(results) == len(req.NodesToRead)
+//@   loop 0 invariant s != nil && s.srv != nil
+//@   loop 0 invariant srvOK(s.srv)
+//@   loop 0 invariant req != nil && req.RequestHeader != nil
+//@   loop 0 invariant forall k int :: { at(req.NodesToRead, k) } off(req.NodesToRead) <= k && k < off(req.NodesToRead) + len(req.NodesToRead) ==>
+//@           at(req.NodesToRead, k) != nil && at(req.NodesToRead, k).NodeID != nil
+//@   loop 0 decreases len(req.NodesToRead) - rangeindex
+
+//@ func (*AttributeService).Write
+//@   props C29
+//@   requires s != nil && srvOK(s.srv)
+//@   requires [arg] typeis(r, *ua.WriteRequest) ==> dyn(r, *ua.WriteRequest) != nil && dyn(r, *ua.WriteRequest).RequestHeader != nil &&
+//@            (forall k int :: { at(dyn(r, *ua.WriteRequest).NodesToWrite, k) } off(dyn(r, *ua.WriteRequest).NodesToWrite) <= k && k < off(dyn(r, *ua.WriteRequest).NodesToWrite) + len(dyn(r, *ua.WriteRequest).NodesToWrite) ==>
+//@                at(dyn(r, *ua.WriteRequest).NodesToWrite, k) != nil && at(dyn(r, *ua.WriteRequest).NodesToWrite, k).NodeID != nil)
+//@   assigns *
+//@   after "ua.NewExtensionObject(nil)" assigns nothing
+//@   ensures [C29:typed] err == nil ==> typeis(r, *ua.WriteRequest) && typeis(result0, *ua.WriteResponse)
+//@   ensures [C29:one-result-per-node] err == nil ==> len(dyn(result0, *ua.WriteResponse).Results) == len(dyn(r, *ua.WriteRequest).NodesToWrite)
+//@   loop 0 invariant -1 <= rangeindex && rangeindex < len(req.NodesToWrite) && len(status) == len(req.NodesToWrite)
+//@   loop 0 invariant s != nil && srvOK(s.srv) && req != nil && req.RequestHeader != nil
+//@   loop 0 invariant forall k int :: { at(req.NodesToWrite, k) } off(req.NodesToWrite) <= k && k < off(req.NodesToWrite) + len(req.NodesToWrite) ==>
+//@           at(req.NodesToWrite, k) != nil && at(req.NodesToWrite, k).NodeID != nil
+//@   loop 0 decreases len(req.NodesToWrite) - rangeindex
+
+//@ func (*ViewService).Browse
+//@   props C29
+//@   requires s != nil && srvOK(s.srv)
+//@   requires [arg] typeis(r, *ua.BrowseRequest) ==> dyn(r, *ua.BrowseRequest) != nil && dyn(r, *ua.BrowseRequest).RequestHeader != nil &&
+//@            (forall k int :: { at(dyn(r, *ua.BrowseRequest).NodesToBrowse, k) } off(dyn(r, *ua.BrowseRequest).NodesToBrowse) <= k && k < off(dyn(r, *ua.BrowseRequest).NodesToBrowse) + len(dyn(r, *ua.BrowseRequest).NodesToBrowse) ==>
+//@                at(dyn(r, *ua.BrowseRequest).NodesToBrowse, k) != nil && at(dyn(r, *ua.BrowseRequest).NodesToBrowse, k).NodeID != nil)
+//@   assigns *
+//@   after "ua.NewExtensionObject(nil)" assigns nothing
+//@   ensures [C29:typed] err == nil ==> typeis(r, *ua.BrowseRequest) && typeis(result0, *ua.BrowseResponse)
+//@   loop 0 invariant -1 <= rangeindex && rangeindex < len(req.NodesToBrowse) && resp != nil && len(resp.Results) == len(req.NodesToBrowse)
+//@   loop 0 invariant s != nil && srvOK(s.srv) && req != nil
+//@   loop 0 invariant forall k int :: { at(req.NodesToBrowse, k) } off(req.NodesToBrowse) <= k && k < off(req.NodesToBrowse) + len(req.NodesToBrowse) ==>
+//@           at(req.NodesToBrowse, k) != nil && at(req.NodesToBrowse, k).NodeID != nil
+//@   loop 0 decreases len(req.NodesToBrowse) - rangeindex
+
+// The dispatcher: whatever the request type (registered or not) and whatever the handler returns
+// (response, error, both nil), no panic. The handler itself is a function value taken from the table:
+// each registered handler is under contract on its own (C29/C31/C32/C33), the call through the table is
+// assumed at its call site to leave the Server object and its configuration alone (result and the rest
+// of the heap arbitrary).
+//@ func (*Server).handleService
+//@   props C29
+//@   requires s != nil && s.cfg != nil && sc != nil
+//@   assigns *
+//@   after "ua.NewExtensionObject(nil)" assigns nothing
+//@   after "sc.SendResponseWithContext(ctx,reqID,resp)" assigns nothing
+//@   after "h(sc,req,reqID)" assigns allbut Server serverConfig
